@@ -60,7 +60,9 @@ def main():
                 tags = re.findall(r'^//go:build\s+(\w+)\s*$', open(os.path.join(src, f)).read(), re.M)
                 targ = ['-tags', tags[0]] if tags else []
                 race = ['-race'] if ('-race' in notes and 'only fails under' in notes) or pid == 'C10' else []
-                rc, out = sh(['go', 'test', '-vet=off', '-count=1'] + targ + race + ['-run', '.', './' + dd], d, env, 900)
+                names = re.findall(r'^func (Test\w+)\(', open(os.path.join(src, f)).read(), re.M)
+                sel = '^(' + '|'.join(names) + ')$' if names else '.'  # only the demonstration's own tests (others of the package may leave goroutines behind)
+                rc, out = sh(['go', 'test', '-vet=off', '-count=1'] + targ + race + ['-run', sel, './' + dd], d, env, 900)
                 os.remove(dst)
                 out_all += out[-3000:]
                 rc_all |= rc
